@@ -33,6 +33,15 @@ fn main() {
         Some("selfcheck") => supervisor::cmd_selfcheck(&args[2..]),
         Some("replaycheck") => supervisor::cmd_replaycheck(&args[2..]),
         Some("hashseed-test") => supervisor::cmd_hashseed_test(),
+        Some("parse") => {
+            // debugging aid: whole-buffer parse of a symbol file, summary on stdout
+            let bytes = std::fs::read(&args[2]).expect("read file");
+            match breakpad_symbols::SymbolFile::from_bytes(&bytes) {
+                Ok(t) => println!("Ok: publics={} functions={} cfi={} files={} url={:?}", t.publics.len(), t.functions.ranges_values().count(), t.cfi_stack_info.ranges_values().count(), t.files.len(), t.url),
+                Err(e) => println!("Err: {e}"),
+            }
+            0
+        }
         _ => {
             eprintln!("usage: sim run <PROP> <quick|thorough> | replay <file> | one <PROP> <idx> | selfcheck <PROP> <n>");
             2
